@@ -50,11 +50,11 @@ def backslashEscapes : Kind → Bool
 
 /-- first character of a token -/
 def stepNone (k : Kind) (c : Char) : St × List Tok :=
-  if isSpace c then (.none, [])
+  if isWordStart k c then (.word [c], [])
+  else if c.isDigit then (.num [c], [])
+  else if isSpace c then (.none, [])
   else if c == openQ k then (.qid [], [])
   else if c == '\'' then (.str [], [])
-  else if isWordStart k c then (.word [c], [])
-  else if c.isDigit then (.num [c], [])
   else (.none, [.sym c])
 
 def step (k : Kind) : St → Char → St × List Tok
